@@ -26,7 +26,11 @@ type vCarrier struct {
 	pending  []byte
 	faults   bool
 	deadlineFails bool
+	stall    bool          // the peer does not read: writes block until the carrier is closed
+	timeoutCh chan struct{} // the read deadline expires
 }
+
+var errCarrierTimeout = errors.New("vcarrier: i/o timeout")
 
 func newVCarrier(faults bool) *vCarrier {
 	return &vCarrier{closeCh: make(chan struct{}), readCh: make(chan []byte, 4), faults: faults}
@@ -39,6 +43,8 @@ func (c *vCarrier) Read(p []byte) (int, error) {
 			c.pending = b
 		case <-c.closeCh:
 			return 0, errCarrierClosed
+		case <-c.timeoutCh:
+			return 0, errCarrierTimeout
 		}
 	}
 	n := copy(p, c.pending)
@@ -47,6 +53,10 @@ func (c *vCarrier) Read(p []byte) (int, error) {
 }
 
 func (c *vCarrier) Write(p []byte) (int, error) {
+	if c.stall {
+		<-c.closeCh
+		return 0, errCarrierClosed
+	}
 	c.mu.Lock()
 	defer c.mu.Unlock()
 	if c.closed {
@@ -248,4 +258,71 @@ func VerifC19CloseDuringSend() {
 	vAssert(len(log) >= 4 && log[0] == 0x40 && log[1] == 2 && log[2] == 0 && log[3] == 1, "and it is the first packet on the wire, intact")
 	vAssert(len(log)%4 == 0, "only whole packets reach the wire")
 	vCover("c19-closeduringsend-end")
+}
+
+// VerifC19BufferedAfterClose: after a close (by the application, by the peer, or after a
+// receive error) buffered sends fail once the flush delay has elapsed, keep failing, nothing
+// reaches the wire, and nothing blocks or panics.
+func VerifC19BufferedAfterClose() {
+	car := newVCarrier(false)
+	conn := NewBaseConn(car)
+	conn.SetMaxWriteDelay(10 * time.Millisecond)
+	switch vChoice("how", 3) {
+	case 0:
+		vAssert(conn.Close() == nil, "close succeeds")
+	case 1:
+		car.Close() // the peer or the network ends the connection
+	case 2:
+		car.readCh <- []byte{0x40, 0x02, 0x00}
+		go func() { car.Close() }()
+		_, err := conn.Receive()
+		vAssert(err != nil, "a stream ending inside a packet is an error")
+	}
+	e1 := conn.Send(&packet.Puback{ID: 1}, true) // may still be accepted into the buffer
+	vFireTimers()
+	vQuiesce()
+	e2 := conn.Send(&packet.Puback{ID: 2}, true)
+	vAssert(e1 != nil || e2 != nil, "buffered sends fail once the flush delay has elapsed")
+	vFireTimers()
+	vQuiesce()
+	vAssert(conn.Send(&packet.Puback{ID: 3}, true) != nil, "and keep failing")
+	vAssert(conn.Send(packet.NewPingreq(), false) != nil, "flushed sends fail at once")
+	_, err := conn.Receive()
+	vAssert(err != nil, "receives fail")
+	vAssert(len(car.snapshot()) == 0, "nothing reaches the wire after the close")
+	vAssert(car.closed, "carrier closed")
+	vCover("c19-bufferedafterclose-end")
+}
+
+// VerifC19StalledSend: a send is stalled in the carrier (the peer does not read), a receive
+// is pending, and the read timeout expires: the receive returns the error, the carrier is
+// closed, the stalled send fails, and nobody stays blocked.
+func VerifC19StalledSend() {
+	car := newVCarrier(false)
+	car.stall = true
+	car.timeoutCh = make(chan struct{}, 1)
+	conn := NewBaseConn(car)
+	conn.SetReadTimeout(time.Second)
+	conn.SetMaxWriteDelay(10 * time.Millisecond)
+	done := make(chan int, 2)
+	var sendErr, recvErr error
+	go func() {
+		sendErr = conn.Send(&packet.Puback{ID: 1}, vBool("async"))
+		if sendErr == nil {
+			sendErr = conn.Send(&packet.Puback{ID: 2}, false)
+		}
+		done <- 1
+	}()
+	go func() {
+		_, recvErr = conn.Receive()
+		done <- 2
+	}()
+	vQuiesce()
+	car.timeoutCh <- struct{}{}
+	<-done
+	<-done
+	vAssert(recvErr != nil, "the pending receive returns the timeout error")
+	vAssert(sendErr != nil, "the stalled send fails")
+	vAssert(car.closed, "the carrier is closed")
+	vCover("c19-stalled-end")
 }
